@@ -42,8 +42,12 @@ func cmdVerify(args []string) {
 	timeout := fs.Int("t", 10, "solver timeout (s)")
 	dump := fs.String("dump", "", "dump SMT scripts to dir")
 	verbose := fs.Bool("v", false, "verbose")
+	thorough := fs.Bool("thorough", false, "include slow_ clauses")
 	fs.Parse(args)
 	eng, err := LoadEngine(*repo, strings.Split(*pkgs, ","))
+	if eng != nil {
+		eng.thorough = *thorough
+	}
 	if err != nil {
 		fmt.Println("ENGINE-LOAD", err)
 		os.Exit(2)
